@@ -261,7 +261,7 @@ func (c *Ctx) finish(pc *propCheck) int {
 	}
 	fmt.Printf("cuecheck %s tier=%s: %d obligations, %d discharged, %d violations, %d known findings, %d packages, %.1fs\n",
 		c.Prop, c.Tier, len(c.Obls), discharged, len(viol), knownUsed, c.nPkgs, time.Since(c.start).Seconds())
-	if c.MutantID == "" && c.replayKey == "" {
+	if c.MutantID == "" && c.replayKey == "" && len(c.Prop) == 3 && c.Prop[0] == 'C' {
 		c.writeEvidence(pc, discharged, len(viol), knownUsed, len(distinct))
 	}
 	return exit
